@@ -68,6 +68,9 @@ func (e *Exec) pendingRecv(c *chanState, except *thread) *thread {
 			continue
 		}
 		o := t.pending
+		if !o.parked {
+			continue
+		}
 		hit := o.isRecv && o.ch == c
 		if !hit {
 			for _, sc := range o.cases {
@@ -91,6 +94,9 @@ func (e *Exec) pendingSend(c *chanState, except *thread) *thread {
 			continue
 		}
 		o := t.pending
+		if !o.parked {
+			continue
+		}
 		hit := o.isSend && o.ch == c
 		if !hit {
 			for _, sc := range o.cases {
@@ -217,7 +223,7 @@ func Send[T any](ch chan<- T, v T) {
 	c := csOf[T](e, chanKeyS(ch))
 	e.mu.Unlock()
 	panicked := false
-	o := &op{desc: "chan.send", isSend: true, val: v, ch: c, chosen: -2}
+	o := &op{desc: "chan.send", isSend: true, val: v, ch: c, chosen: -2, canPark: true}
 	o.enabled = func() bool { return e.canSend(c, t) }
 	o.exec = func() {
 		if c.closed {
@@ -246,7 +252,7 @@ func Recv2[T any](ch <-chan T) (T, bool) {
 	e.mu.Lock()
 	c := csOf[T](e, chanKeyR(ch))
 	e.mu.Unlock()
-	o := &op{desc: "chan.recv", isRecv: true, ch: c, chosen: -2}
+	o := &op{desc: "chan.recv", isRecv: true, ch: c, chosen: -2, canPark: true}
 	o.enabled = func() bool { return e.canRecv(c, t) }
 	o.exec = func() { o.val, o.ok = e.doRecv(c, t) }
 	e.point(t, o)
@@ -293,6 +299,9 @@ func (e *Exec) closeModel(c *chanState, by *thread) {
 			continue
 		}
 		po := p.pending
+		if !po.parked {
+			continue
+		}
 		if po.isSend && po.ch == c {
 			po.closedUnder = true
 			p.pending = nil
@@ -417,7 +426,7 @@ func Select(hasDefault bool, cs ...Case) int {
 	if t == nil {
 		return rawSelect(hasDefault, cases)
 	}
-	o := &op{desc: "select", cases: cases, hasDef: hasDefault, chosen: -2}
+	o := &op{desc: "select", cases: cases, hasDef: hasDefault, chosen: -2, canPark: !hasDefault}
 	ready := func() []int {
 		var r []int
 		for i, sc := range cases {
@@ -486,3 +495,22 @@ func rawSelect(hasDefault bool, cases []*SelCase) int {
 		}
 	}
 }
+
+// PeekLen reads the modelled buffer length without a scheduling point (harness oracles only).
+func PeekLen[T any](ch chan T) int {
+	e, t := managed()
+	if t == nil {
+		return len(ch)
+	}
+	e.mu.Lock()
+	defer e.mu.Unlock()
+	if c := e.chans[chanKey(ch)]; c != nil {
+		return len(c.buf)
+	}
+	return 0
+}
+
+// SendFn / SendCaseFn: curried forms used by the rewriter so that T is inferred from the channel
+// alone and the value is converted by ordinary assignability (e.g. []any sent on chan any).
+func SendFn[T any](ch chan<- T) func(T)              { return func(v T) { Send(ch, v) } }
+func SendCaseFn[T any](ch chan<- T) func(T) *SelCase { return func(v T) *SelCase { return SendCase(ch, v) } }
